@@ -636,6 +636,11 @@ class Metrics:
         else:
             cls.traces[rank][type_] = ([], mem_trace, is_started)
 
+        # If the rank is already part of the loop order, its traces are
+        # started when the rank is registered, which will not happen again
+        if not is_started and (rank in cls.line_order or rank in cls.rank_matches):
+            cls._startTrace(rank, type_)
+
     @classmethod
     def _writeTrace(cls, rank, type_):
         """Write the trace to the file
